@@ -67,7 +67,7 @@ Definition J (g : dq_shared) (c pend : list addr) (l : dq_local) : Prop :=
       Jk g c pend l k /\ stab_ok g s lrs /\ (lrs = anc g -> second s c (aend s lrs) (lptr prev)) /\
       lptr pn <> aend s lrs /\ e <= epoch g (lptr prev) /\
       ((lrs = anc g /\ outward s (heap g (lptr prev)) = pn /\ epoch g (lptr prev) = e) \/
-       (epoch g (lptr prev) = e -> lnk_lt g s (lptr prev) pn /\ (In (lptr prev) c \/ In (lptr prev) pend)))
+       (lnk_lt g s (lptr prev) pn /\ epoch g (lptr prev) <> 0))
   | S6 k s lrs => Jk g c pend l k /\ stab_ok g s lrs /\ (lrs = anc g -> fixed g s c)
   end.
 
